@@ -60,4 +60,10 @@ with ThreadPoolExecutor(3) as ex:
         c = r.get("checks", {}).get(r["property"])
         status = "n/a" if c == "not-claimed" else ("DETECTED" if isinstance(c, dict) and c["exit"] == 1 and any(l.startswith("VIOLATION") for l in c["lines"]) else f"missed({c})" if c else r.get("result"))
         print(sid, status, (c or {}).get("lines", [""])[:1] if isinstance(c, dict) else "", flush=True)
-json.dump(out, open(os.path.join(ROOT, "seeded", "MATRIX.json"), "w"), indent=1)
+mp = os.path.join(ROOT, "seeded", "MATRIX.json")
+try:
+    allr = json.load(open(mp))
+except Exception:
+    allr = {}
+allr.update(out)   # partial runs refresh their own entries only
+json.dump(allr, open(mp, "w"), indent=1, sort_keys=True)
